@@ -4,6 +4,7 @@
     inkmodel pathprobe              path texts (JSON strings) on stdin
 -/
 import Ink.Audit
+import Driver.Play
 
 open Ink
 
@@ -40,8 +41,31 @@ partial def pathProbeLoop (h : IO.FS.Stream) (out : IO.FS.Stream) : IO Unit := d
   | _ => out.putStrLn "null"
   pathProbeLoop h out
 
+/-- `play <script>`: run the op script on the model. Files named by `new` ops are read up front. -/
+def playCmd (script : String) : IO Unit := do
+  let text ← IO.FS.readFile script
+  let out ← IO.getStdout
+  let lines := (text.splitOn "\n").filter (fun l => !l.trimAscii.isEmpty)
+  let ops := lines.map (fun l => (Json.parse l.toList).getD .null)
+  -- preload story files
+  let mut files : List (String × List Char) := []
+  for op in ops do
+    match op with
+    | .arr (.str "new" :: .str path :: _) =>
+      if !(files.any (fun f => f.1 == path)) then
+        let cs ← (try readFileChars path catch _ => pure [])
+        files := (path, cs) :: files
+    | _ => pure ()
+  let readFile := fun (p : String) => (files.find? (fun f => f.1 == p)).map (·.2)
+  let mut player : Player := {}
+  for op in ops do
+    let (res, p') := player.exec op readFile
+    player := p'
+    out.putStrLn res.render
+
 def main (args : List String) : IO UInt32 := do
   match args with
+  | ["play", script] => playCmd script; pure 0
   | ["audit", path] => auditCmd path; pure 0
   | ["pathprobe"] => pathProbeLoop (← IO.getStdin) (← IO.getStdout); pure 0
   | _ => IO.eprintln "usage: inkmodel audit <story.json> | pathprobe"; pure 2
